@@ -159,6 +159,20 @@ def special_images(r):
     return out
 
 
+_base_cache = {}
+
+
+def materialise(data):
+    """Images travel to the workers as recipes ("P", base name, offset, size, value); bytes pass through."""
+    if isinstance(data, (bytes, bytearray)):
+        return data
+    _, bname, off, size, v = data
+    if bname not in _base_cache:
+        bt = {b[0]: b for b in base_trees()}
+        _base_cache[bname] = sqfsimg.build_image(bt[bname][1], **bt[bname][2])[0]
+    return sqfsimg.patch(_base_cache[bname], off, size, v)
+
+
 def reader_ops(B, img_path, valid_path, work, paths, r, full):
     """List of (name, argv, needs_scratch)."""
     ops = [("describe", [B["rdsquashfs"], "-d", img_path]),
@@ -196,6 +210,7 @@ def run_walk_batch(arg):
             names = {}
             lst = []
             for i, (name, data) in enumerate(items):
+                data = materialise(data)
                 ip = os.path.join(work, "m%05d.sqfs" % i)
                 with open(ip, "wb") as f:
                     f.write(data)
@@ -261,6 +276,7 @@ def run_batch(arg):
             with open(valid, "wb") as f:
                 f.write(vimg)
             for name, data, paths in items:
+                data = materialise(data)
                 ip = os.path.join(work, "m.sqfs")
                 with open(ip, "wb") as f:
                     f.write(data)
@@ -338,13 +354,9 @@ def main(tier):
     if tier == "quick" and len(wcand) > 9000:
         wcand = r.sample(wcand, 9000)
     rep.extra["walk_images"] = len(wcand)
-    built = {}
-    bt0 = {b[0]: b for b in base_trees()}
     witems = []
     for bname, fname, off, size, v in wcand:
-        if bname not in built:
-            built[bname] = sqfsimg.build_image(bt0[bname][1], **bt0[bname][2])[0]
-        witems.append(("%s:%s=%#x" % (bname, fname, v), sqfsimg.patch(built[bname], off, size, v)))
+        witems.append(("%s:%s=%#x" % (bname, fname, v), ("P", bname, off, size, v)))
     wbatches = [(i, witems[k:k + 400], tier) for i, k in enumerate(range(0, len(witems), 400))]
     for oc in core.pmap(run_walk_batch, wbatches):
         rep.add(oc)
@@ -352,15 +364,11 @@ def main(tier):
     if len(cand) > budget:
         cand = r.sample(cand, budget)
     rep.exhaustive = False
-    imgs = {}
     items = []
     bt = {b[0]: b for b in base_trees()}
     for bname, fname, off, size, v in cand:
-        if bname not in imgs:
-            imgs[bname] = sqfsimg.build_image(bt[bname][1], **bt[bname][2])
-        img = imgs[bname][0]
         fields_seen.add((bname, fname.split("@")[0]))
-        items.append(("%s:%s=%#x" % (bname, fname, v), sqfsimg.patch(img, off, size, v), list(bt[bname][1])))
+        items.append(("%s:%s=%#x" % (bname, fname, v), ("P", bname, off, size, v), list(bt[bname][1])))
     batches = [(i, "field", items[k:k + per_batch], tier) for i, k in enumerate(range(0, len(items), per_batch))]
     # engine 1b: tool-written compressed images, byte mutations
     with core.Scratch("c05b") as work:
